@@ -70,14 +70,25 @@ fn parse_expect(case: &Value) -> Vec<Seg> {
     }).collect()
 }
 
-pub struct Run { pub segs: Vec<Seg>, pub cycle: bool, pub panic: Option<String>, pub raw: Vec<Option<Unifiable>> }
+pub struct Run { pub segs: Vec<Seg>, pub cycle: bool, pub panic: Option<String>, pub raw: Vec<Option<Unifiable>>,
+                 /// an answer's bindings used a variable id above the id counter: the next renaming would reuse it
+                 pub stale_id: Option<String> }
+
+fn max_id(t: &Tm) -> usize {
+    match t {
+        Tm::Var(id, _) => *id,
+        Tm::Cx(_, a) | Tm::Fn(_, a) => a.iter().map(max_id).max().unwrap_or(0),
+        Tm::List(a, tl) => a.iter().map(max_id).max().unwrap_or(0).max(tl.as_ref().map_or(0, |x| max_id(x))),
+        _ => 0,
+    }
+}
 
 /// Ask the real engine `n` times.
 pub fn run_query(kb: &KnowledgeBase, query: &Goal, n: usize) -> Run {
     let q = Rc::new(query.clone());
     let args: Vec<Tm> = match &*q { Goal::ComplexGoal(Unifiable::SComplex(v)) => v[1..].iter().map(project).collect(), _ => vec![] };
     let sn = make_base_node(Rc::clone(&q), kb);
-    let mut run = Run { segs: vec![], cycle: false, panic: None, raw: vec![] };
+    let mut run = Run { segs: vec![], cycle: false, panic: None, raw: vec![], stale_id: None };
     capture::take();
     for _ in 0..n {
         let r = catch_unwind(AssertUnwindSafe(|| next_solution(Rc::clone(&sn)).map(|s| (*s).clone())));
@@ -85,6 +96,13 @@ pub fn run_query(kb: &KnowledgeBase, query: &Goal, n: usize) -> Run {
         match r {
             Ok(Some(ss)) => {
                 if has_cycle(&ss) { run.cycle = true; }
+                // C10: the id counter must be above every id in use, or the next clause renamed gets a used id
+                let counter = get_var_id();
+                let mut top = 0;
+                for (i, b) in ss.iter().enumerate() { if let Some(b) = b { top = top.max(i).max(max_id(&project(b))); } }
+                if top > counter && run.stale_id.is_none() {
+                    run.stale_id = Some(format!("variable id {} is in use in the answer's bindings but the id counter is {}", top, counter));
+                }
                 let ans = canon(&args.iter().map(|t| resolve(t, &ss)).collect::<Vec<_>>());
                 if ans.iter().any(|t| contains_bad(t, "cycle")) { run.cycle = true; run.raw.push(None); }
                 else { run.raw.push(catch_unwind(AssertUnwindSafe(|| q.replace_variables(&ss))).ok()); }
@@ -187,6 +205,14 @@ pub fn replay(case: &Value) -> Vec<Obs> {
         let again_ok = (expect.len()..n).all(|i| !run.segs[i].some && run.segs[i].out.is_empty());
         if again_ok { obs.push(Obs::ok("C05", "re-ask")); }
         else { obs.push(Obs::bad("C05", "re-ask", format!("{} :: after \"no more\" the engine answered {}", what, show_segs(&run.segs[expect.len()..])))); }
+    }
+    match &run.stale_id {
+        None => obs.push(Obs::ok("C10", "ids-in-use-below-counter")),
+        Some(d) => obs.push(Obs::bad("C10", "id-in-use-not-fresh", format!("{} :: {}", what, d))),
+    }
+    match &run.stale_id {
+        None => obs.push(Obs::ok("C10", "ids-in-use-below-counter")),
+        Some(d) => obs.push(Obs::bad("C10", "id-in-use-not-fresh", format!("{} :: {}", what, d))),
     }
     if slice == "alias" {
         if run.cycle { obs.push(Obs::bad("C08", "cycle", detail.clone())); } else { obs.push(Obs::ok("C08", "acyclic")); }
